@@ -90,7 +90,7 @@ def gen_cases(spec, rnd, quick, E=5):
         n = spec[1]
         perms = list(itertools.permutations(range(n)))
         pairs = list(itertools.product(perms, perms))
-        pairs = rnd.sample(pairs, min(len(pairs), 14 if quick else 150))
+        pairs = rnd.sample(pairs, min(len(pairs), 14 if quick else 50))
         for a, b in pairs:
             k = rnd.randint(-3, 5)
             cases.append({'spec': spec, 'op': 'sym', 'a': list(a), 'b': list(b), 'n': k, 'variant': rnd.choice(['ss', 'sp', 'ps']),
@@ -108,11 +108,11 @@ def gen_cases(spec, rnd, quick, E=5):
     def add(op, **kw):
         cases.append(dict({'spec': spec, 'op': op, 'e1': 0, 'e2': 0, 'n': 0, 'variant': '', 'how': rnd.choice(['conv', 'input'])}, **kw))
     pairs = [(a, b) for a in rng for b in rng]
-    for (a, b) in rnd.sample(pairs, min(len(pairs), 6 if quick else 50)):
+    for (a, b) in rnd.sample(pairs, min(len(pairs), 6 if quick else 14)):
         add('op', e1=a, e2=b, variant=rnd.choice(['ss', 'sp', 'ps', 'alias']))
         add('eq', e1=a, e2=rnd.choice([a, b]), variant=rnd.choice(['ss', 'sp', 'ne']))
         add('ifelse', e1=a, e2=b, n=rnd.randint(0, 1), variant=rnd.choice(['ss', 'sp', 'ps', 'pp']))
-    for a in rnd.sample(list(rng), min(len(rng), 4 if quick else 11)):
+    for a in rnd.sample(list(rng), min(len(rng), 4 if quick else 7)):
         add('double', e1=a)
         add('inv', e1=a, variant=rnd.choice(['inv', 'alias', 'inverse']))
         add('rsub', e1=a, e2=rnd.choice(list(rng)))
